@@ -731,7 +731,8 @@ class BacktrackingOr(ValuePattern):
             [v.clone(node_map) for v in self._values],
             self.name,
             self._tag_var,
-            self._tag_values,
+            # Without a tag variable the tag values are the defaults (and must not be passed).
+            self._tag_values if self._tag_var is not None else None,
         )
 
 
